@@ -11,7 +11,8 @@ use std::os::unix::io::FromRawFd;
 
 #[derive(Clone, Debug, Serialize, Deserialize)]
 pub struct C13Case {
-    /// 0 pipe, 1 unix stream pair, 2 unix dgram pair, 3 seqpacket pair
+    /// 0 pipe, 1 unix stream pair, 2 unix dgram pair, 3 seqpacket pair, 4 the iterator backend
+    /// (SignalDelivery::with_pipe) over a harness stream pair
     pub kind: u8,
     /// register_raw (true) or register with an owned descriptor (false)
     pub raw: bool,
@@ -28,7 +29,7 @@ pub struct C13Case {
 
 pub fn strategy() -> BoxedStrategy<C13Case> {
     (
-        0u8..4,
+        0u8..5,
         any::<bool>(),
         prop_oneof![2 => Just(0u8), 2 => Just(1u8), 2 => Just(2u8)],
         1u16..400,
@@ -41,7 +42,16 @@ pub fn strategy() -> BoxedStrategy<C13Case> {
         .boxed()
 }
 
+fn base(kind: u8) -> u8 {
+    if kind % 5 == 4 {
+        1
+    } else {
+        kind % 5
+    }
+}
+
 fn make_pair(kind: u8) -> Option<(i32, i32)> {
+    let kind = base(kind);
     let mut fds = [0i32; 2];
     let r = unsafe {
         match kind % 4 {
@@ -76,6 +86,7 @@ fn put(fd: i32, b: u8) -> bool {
 /// drain everything readable without blocking: (messages/bytes read as a byte vector, one entry
 /// per byte for stream kinds, one entry per datagram (0xFF for an empty one) for datagram kinds)
 fn drain(fd: i32, kind: u8) -> Vec<u8> {
+    let kind = base(kind);
     let mut out = Vec::new();
     loop {
         let mut buf = [0u8; 4096];
@@ -125,7 +136,7 @@ fn register(raw: bool, sig: c_int, w: i32) -> Result<signal_hook::SigId, String>
 fn child(case: &C13Case, fd: i32) {
     crate::vsched::install();
     ignore_sigpipe();
-    let kind = case.kind % 4;
+    let kind = case.kind % 5;
     // measure capacity on a twin
     let cap = {
         let (tr, tw) = match make_pair(kind) {
@@ -198,11 +209,33 @@ fn child(case: &C13Case, fd: i32) {
         // restore the original flags: the library must arrange non-blocking behaviour itself
         unsafe { libc::fcntl(wdup, libc::F_SETFL, fl) };
     }
-    let id = match register(case.raw, SIG, w) {
-        Ok(id) => id,
-        Err(e) => {
-            emit(fd, &json!({"k": "infra", "what": format!("registration failed: {}", e)}));
-            return;
+    let mut delivery = None;
+    let id = if kind == 4 {
+        use std::os::unix::net::UnixStream;
+        let rdup = unsafe { libc::dup(r) };
+        let d = unsafe {
+            signal_hook::iterator::backend::SignalDelivery::with_pipe(
+                UnixStream::from_raw_fd(rdup),
+                UnixStream::from_raw_fd(w),
+                signal_hook::iterator::exfiltrator::SignalOnly::default(),
+                &[SIG],
+            )
+        };
+        match d {
+            Ok(d) => delivery = Some(d),
+            Err(e) => {
+                emit(fd, &json!({"k": "infra", "what": format!("with_pipe failed: {}", e)}));
+                return;
+            }
+        }
+        None
+    } else {
+        match register(case.raw, SIG, w) {
+            Ok(id) => Some(id),
+            Err(e) => {
+                emit(fd, &json!({"k": "infra", "what": format!("registration failed: {}", e)}));
+                return;
+            }
         }
     };
     let flags_after = unsafe { libc::fcntl(wdup, libc::F_GETFL) };
@@ -237,7 +270,13 @@ fn child(case: &C13Case, fd: i32) {
         first = false;
     }
     // unregister: the descriptor must be closed now
-    let un = signal_hook::low_level::unregister(id);
+    let un = match id {
+        Some(id) => signal_hook::low_level::unregister(id),
+        None => {
+            drop(delivery.take());
+            true
+        }
+    };
     let open_after = fd_valid(w);
     emit(fd, &json!({"k": "unregistered", "ret": un, "w_open": open_after}));
     if case.reuse_probe && !open_after {
@@ -248,7 +287,7 @@ fn child(case: &C13Case, fd: i32) {
         for _ in 0..5 {
             unsafe { libc::raise(SIG) };
         }
-        let un2 = signal_hook::low_level::unregister(id);
+        let un2 = id.map_or(false, signal_hook::low_level::unregister);
         let valid = fd_valid(p[0]) && fd_valid(p[1]);
         set_nonblock(p[0]);
         let mut b = [0u8; 16];
@@ -292,7 +331,7 @@ pub fn run_case(case: &C13Case) -> CaseReport {
     let mut rep = CaseReport::default();
     rep.hash = hash_of(&format!("{:?}", case));
     rep.sample = Some(json!({"case": case, "records": recs, "end": format!("{:?}", end)}));
-    let kindname = ["pipe", "unix-stream", "unix-dgram", "seqpacket"][case.kind as usize % 4];
+    let kindname = ["pipe", "unix-stream", "unix-dgram", "seqpacket", "iterator-backend"][case.kind as usize % 5];
     rep.class(kindname);
     if recs.iter().any(|r| r["k"] == "infra") {
         rep.inconclusive = Some(format!("{:?}", recs.iter().find(|r| r["k"] == "infra")));
@@ -328,7 +367,7 @@ pub fn run_case(case: &C13Case) -> CaseReport {
     let cap = recs.iter().find(|r| r["k"] == "cap").and_then(|r| r["cap"].as_u64()).unwrap_or(0);
     let reg = recs.iter().find(|r| r["k"] == "registered");
     let prefill = reg.and_then(|r| r["prefill"].as_u64()).unwrap_or(0);
-    if case.kind % 4 == 0 && reg.map_or(false, |r| r["nonblock"] != true) {
+    if case.kind % 5 == 0 && reg.map_or(false, |r| r["nonblock"] != true) {
         rep.viol("C13/blocking-fd", "a pipe was registered but its write end was left in blocking mode".into());
     }
     if let Some(r) = recs.iter().find(|r| r["k"] == "reject") {
